@@ -38,6 +38,10 @@ def gen_cases(tier: str, seed: int) -> list[dict]:
     cases = []
     for k in range(n):
         hist = H.gen_history(rng, max_sessions=4, subdir_bias=0.6)
+        if k % 3 == 0:
+            # a split with many shards (9..20): verification must reach the last ones too
+            hist["eps"] = 1
+            hist["sessions"].insert(0, {"kind": "root", "writes": [{"split": "train"}] * rng.choice([9, 11, 13, 17, 20])})
         if len(hist["sessions"]) < 2:
             hist["sessions"].append({"kind": "subdir", "subdir": "a/b", "writes": [{"split": "train"}] * 3})
         if k % 4 == 0:
@@ -162,7 +166,7 @@ def run_case(case: dict) -> dict:
                 obs["detected"] += 1
             sigs.append([list(shape), role, kind, offset_class])
 
-        how_many = 10 ** 9 if case["exhaustive"] else 26
+        how_many = 10 ** 9 if case["exhaustive"] else (26 if len(files) <= 14 else 8)
         for rel, role in files:
             path = root / rel
             original = path.read_bytes()
